@@ -599,6 +599,49 @@ func (x *c07Run) runStream(sc *c07Scenario, m *material) {
 			x.violate(sc, "silent-loss", "inconsistent-record", fmt.Sprintf("LOCUS declares %d, ORIGIN holds %d: no record and no error", m.declared, m.actual))
 		}
 	}
+	// T4 for every accepted GenBank record, whatever was done to the stream:
+	// the length a record is returned with is the one its own LOCUS line
+	// declares (a record with a CONTIG and no residues excepted). The LOCUS
+	// lines are matched to the records by position, and only when there are
+	// as many of the one as of the other.
+	if !cut && r.Err == nil && len(r.Seqs) > 0 && format == "genbank" {
+		var declared []int
+		for _, l := range splitLines(m.data) {
+			if !strings.HasPrefix(l, "LOCUS ") {
+				continue
+			}
+			f := strings.Fields(l)
+			d := -1
+			for i := 2; i < len(f); i++ {
+				if f[i] == "bp" || f[i] == "aa" {
+					if v, err := strconv.Atoi(f[i-1]); err == nil {
+						d = v
+					}
+					break
+				}
+			}
+			declared = append(declared, d)
+		}
+		if len(declared) == len(r.Seqs) {
+			res.Probes["declared_length_checked_on_accepted_records"]++
+			for k, seq := range r.Seqs {
+				got := gts.Len(seq)
+				f, ok := fieldsOf(seq)
+				if !ok || declared[k] < 0 || got == declared[k] || (got == 0 && f.Contig.Accession != "") {
+					continue
+				}
+				kind := "declared>returned"
+				if got > declared[k] {
+					kind = "declared<returned"
+				}
+				if got == 0 {
+					kind = "returned-empty"
+				}
+				x.violate(sc, "length-mismatch-accepted", "any-edit:"+kind, fmt.Sprintf("record %d: its LOCUS line declares %d, it was accepted without an error with %d residues", k, declared[k], got))
+				break
+			}
+		}
+	}
 	// T5: chunk invariance
 	if sc.CheckAlt {
 		alt := sc.Pipe
